@@ -61,7 +61,8 @@ def near_duplicate(rng, t):
 # ---------------------------------------------------------------- projects
 
 LOCALE_POOL = ["en", "fr", "de", "it", "pt-BR", "zh-Hant", "es-419"]
-NS_POOL = ["common", "home", "admin_panel", "a"]
+# namespace names are configured strings, not identifiers: the generated code maps `-` to `_` for its idents only
+NS_POOL = ["common", "user-profile", "admin_panel", "a-b-c", "home"]
 
 
 def put_file(path, content):
@@ -576,6 +577,7 @@ leptos = {{ version = "0.7.7", features = ["ssr"] }}
 leptos_i18n = {{ path = "{repo}/leptos_i18n", default-features = false, features = ["ssr", "dynamic_load", "json_files", "cookie", "plurals", "icu_compiled_data", "interpolate_display"] }}
 tokio = {{ version = "1", features = ["rt"] }}
 any_spawner = {{ version = "0.2", features = ["tokio"] }}
+serde_json = "1"
 
 [profile.dev]
 debug = 0
@@ -753,6 +755,27 @@ fn render(req: Req) -> (String, String) {{
     (html, raw)
 }}
 
+/// what the hydrating client does with the embedded value: every unit's `locale` and `id` go through the Deserialize
+/// impls of the generated `Locale` and unit-id types.  "ok", "unparsed" (the script is not JSON) or the rejected values.
+fn client_ids(raw: &str) -> String {{
+    type UnitId = <Locale as leptos_i18n::Locale>::TranslationUnitId;
+    let Some(rest) = raw.strip_prefix("window.__LEPTOS_I18N_TRANSLATIONS = ") else {{ return "unparsed".to_string() }};
+    let rest = rest.trim_end().trim_end_matches(';');
+    let Ok(serde_json::Value::Array(units)) = serde_json::from_str::<serde_json::Value>(rest) else {{ return "unparsed".to_string() }};
+    let mut bad = Vec::new();
+    for u in units {{
+        let id = u.get("id").cloned().unwrap_or(serde_json::Value::Null);
+        if serde_json::from_value::<UnitId>(id.clone()).is_err() {{
+            bad.push(format!("id:{{}}", hex(&id.to_string())));
+        }}
+        let l = u.get("locale").cloned().unwrap_or(serde_json::Value::Null);
+        if serde_json::from_value::<Locale>(l.clone()).is_err() {{
+            bad.push(format!("locale:{{}}", hex(&l.to_string())));
+        }}
+    }}
+    if bad.is_empty() {{ "ok".to_string() }} else {{ bad.join(",") }}
+}}
+
 fn parse(line: &str) -> Req {{
     let mut r = Req::default();
     for tok in line.split(',').filter(|s| !s.is_empty()) {{
@@ -793,7 +816,7 @@ fn main() {{
             let req = parse(line.trim());
             let r = std::panic::catch_unwind(std::panic::AssertUnwindSafe(|| render(req)));
             match r {{
-                Ok((html, raw)) => println!("H {{}} {{}}", hex(&html), hex(&raw)),
+                Ok((html, raw)) => println!("H {{}} {{}} {{}}", hex(&html), hex(&raw), client_ids(&raw)),
                 Err(_) => println!("PANIC"),
             }}
         }}
@@ -860,7 +883,7 @@ def write_probe(proj, d, touch_list, name):
     put_file(os.path.join(d, "Cargo.toml"), CARGO_TOML.format(repo=REPO, i18n="\n".join(i18n), name=name))
     arms, arms_t, arms_tds, arms_tdd, arms_ts, arms_tsd = [], [], [], [], [], []
     for i, (ns, loc, path, args) in enumerate(touch_list):
-        keys = ".".join(([ns] if ns else []) + path)
+        keys = ".".join(([ident(ns)] if ns else []) + path)      # the macros take the identifier form of the namespace
         L = ident(loc)
         arms.append("        %d => td!(Locale::%s, %s%s).into_any()," % (i, L, keys, args))
         arms_tds.append("        %d => ready(td_string!(Locale::%s, %s%s)).to_string()," % (i, L, keys, args))
@@ -1052,7 +1075,7 @@ def case_pairs(c, dims):
     return out
 
 
-MORE_NS = ["common", "home", "admin_panel", "a", "shop", "auth_flow", "b2", "zz"]
+MORE_NS = ["common", "user-profile", "admin_panel", "a-b-c", "shop", "auth-flow", "b2", "zz"]
 
 
 def matrix_project(rng, use_ns, shift=0, n_units=12):
@@ -1126,7 +1149,7 @@ def structured_project(rng, nloc=3, nns=0, depth=1, mode="rich", inherit=True, a
     out; they share one text among themselves and one with the default locale.  With `inherit` the second locale
     inherits from the default one when there are two locales, the third from the second otherwise."""
     locales = rng.sample(LOCALE_POOL, nloc)
-    namespaces = MORE_NS[:nns] if nns else None
+    namespaces = (MORE_NS[:nns] if nns > 1 else [rng.choice(["common", "user-profile"])]) if nns else None
     inherits = {}
     if inherit and nloc == 2:
         inherits[locales[1]] = locales[0]
